@@ -112,6 +112,9 @@ def run(ctx):
     rcm, model, _, errm = fw.run_model(ctx, cf)
     if rcm != 0: ctx.signal("K", "modeldriver", "model driver exited with %s: %s" % (rcm, errm[-400:]))
     for c in cases: judge(ctx, c, impl, model)
+    if not ctx.replay:
+        import C07par
+        C07par.run(ctx)
 
 def dict_from_line(line):
     """rebuild a case from its text (replay)"""
